@@ -107,12 +107,18 @@ static void dump(ESL_MSA *m)
   h_out("%s", ob);
 }
 
+/* mask=0110...; with cyc=1 the pattern is repeated cyclically (or cut) to exactly <need> flags */
 static int *parse_mask(const char *s, int64_t need, int64_t *n_ret)
 {
   int64_t n = s ? (int64_t) strlen(s) : 0, i;
   int *m;
   if (s && !strcmp(s, "-")) n = 0;
   m = malloc(sizeof(int) * (size_t)((n > need ? n : need) + 1));
+  if (h_argi("cyc", 0)) {
+    for (i = 0; i < need; i++) m[i] = n ? (s[i % n] == '1') : 0;
+    if (n_ret) *n_ret = need;
+    return m;
+  }
   for (i = 0; i < n; i++) m[i] = (s[i] == '1');
   for (; i < need; i++) m[i] = 0;
   if (n_ret) *n_ret = n;
@@ -237,7 +243,8 @@ static void h_op(void)
     if (!m) { h_out("nomsa"); return; }
     h_out("%s", h_status(esl_msa_Validate(m, errbuf)));
   } else if (!strcmp(op, "swap")) {
-    ESL_MSA *t = A; A = B; B = t; h_out("ok");
+    if (!B) { h_out("noswap"); return; }
+    { ESL_MSA *t = A; A = B; B = t; h_out("ok"); }
 
   /* ---------------- transformations ---------------- */
   } else if (!strcmp(op, "digitize")) {
